@@ -6,6 +6,8 @@ maximal key" (from core's `List.mergeSort_cons`).
 -/
 namespace Ems.Reg
 
+deriving instance DecidableEq for Except
+
 set_option linter.unusedSectionVars false
 set_option linter.unusedSimpArgs false
 
@@ -470,6 +472,28 @@ theorem guess_max {ε : Type} (check : α → Except ε (Option Nat)) (cs : List
     · rw [← hm]; exact Nat.le_refl _
     · exact hpost _ hm
 
+/-- `guess` with the sort replaced by its specification (`firstMax`): structurally recursive,
+so concrete instances can be evaluated by `decide` -/
+def guessSpec {ε : Type} (check : α → Except ε (Option Nat)) (cs : List α) : Except ε (Option α) :=
+  match collect check cs with
+  | .error e => .error e
+  | .ok l => .ok ((firstMax l).map (·.1))
+
+theorem guess_eq_guessSpec {ε : Type} (check : α → Except ε (Option Nat)) (cs : List α) :
+    guess check cs = guessSpec check cs := by
+  simp only [guess, matchConventions, guessSpec]
+  cases collect check cs with
+  | error e => rfl
+  | ok l => simp [head?_mergeSort_specGe]
+
 end Generic
+
+/-- `detect` with the sort replaced by its specification -/
+def detectSpec (env : SynthEnv) (reg : List Cls) (f : Features) : Except Unit (Option Cls) :=
+  guessSpec (fun c => clsCheck env c f) (conventions reg entryPointClasses)
+
+theorem detect_eq_detectSpec : detect = detectSpec := by
+  funext env reg f
+  exact guess_eq_guessSpec _ _
 
 end Ems.Reg
